@@ -17,6 +17,10 @@ def _case(ctx, run, prop, weights, faults_p, sizes):
            "sizes": sizes(rc),
            "faults": rc.random() < faults_p, "fixed_width": (prop == "C07" and rc.random() < 0.15),
            "n_ops": rc.randint(5, 40) if ctx.tier == "quick" else rc.randint(5, 100)}
+    # the index column need not be called 'name' (and then another column may be); a column name may contain it
+    cfg["index_name"] = "name" if rc.random() < 0.6 else rc.choice(["elem", "s", "key", "n"])
+    cfg["name_col"] = rc.random() < 0.4
+    cfg["substr_cols"] = rc.random() < 0.3
     w = dict(weights)
     for k in list(w):
         if rc.random() < 0.15 and k not in ("get", "sel", "d_rows", "setcell"):
